@@ -71,6 +71,50 @@ EDITS = {
          "                    self.a[i] += self.M_T[i, n] * self.s_ivar[n] * self.rv[n]\n",
          "                    self.a[i] += self.s_ivar[n] * self.M_T[i, n] * self.rv[n]\n"),
     ]),
+    "prepare_data-reorder": (["C08", "C01", "C07", "C18"], [
+        ("thejoker/data_helpers.py",
+         "        t.append(d.t.tcb.mjd)\n        rv.append(d.rv.to_value(rv_unit))\n        err.append(d.rv_err.to_value(rv_unit))\n        ids.append([k] * len(d))\n",
+         "        n_k = len(d)\n        ids.append([k] * n_k)\n        err.append(d.rv_err.to_value(rv_unit))\n        rv.append(d.rv.to_value(rv_unit))\n        t.append(d.t.tcb.mjd)\n"),
+        ("thejoker/data_helpers.py",
+         "    rv = np.concatenate(rv) * rv_unit\n    err = np.concatenate(err) * rv_unit\n    ids = np.concatenate(ids)\n",
+         "    ids = np.concatenate(ids)\n    err = np.concatenate(err) * rv_unit\n    rv = np.concatenate(rv) * rv_unit\n"),
+    ]),
+    "tempfile-rename-and-simplify": (["C13", "C05"], [
+        ("thejoker/utils.py",
+         "            f = NamedTemporaryFile(mode=\"r+\", suffix=\".hdf5\", delete=False)\n            f.close()\n",
+         "            tmp = NamedTemporaryFile(mode=\"r+\", suffix=\".hdf5\", delete=False)\n            tmp.close()\n            f = tmp\n"),
+        ("thejoker/utils.py",
+         "            except Exception as e:\n                raise e\n            finally:\n",
+         "            except Exception:\n                raise\n            finally:\n"),
+    ]),
+    "uniformlog-temporaries": (["C09"], [
+        ("thejoker/distributions.py",
+         "        def rng_fn(cls, rng, a, b, size):\n            _fac = np.log(b) - np.log(a)\n            uu = rng.uniform(size=size)\n            return np.exp(uu * _fac + np.log(a))\n\n    uniformlog = UniformLogRV()\n\n    class UniformLog(pm.Continuous):\n        rv_op = uniformlog\n\n        @classmethod\n        def dist(cls, a, b, **kwargs):\n            a = pt.as_tensor_variable(a)\n            b = pt.as_tensor_variable(b)\n            return super().dist([a, b], **kwargs)\n\n        def support_point(rv, size, a, b):\n            a, b = pt.broadcast_arrays(a, b)\n            return 0.5 * (a + b)\n\n        def logp(value, a, b):",
+         "        def rng_fn(cls, rng, a, b, size):\n            ln_a = np.log(a)\n            _fac = np.log(b) - ln_a\n            uu = rng.uniform(size=size)\n            return np.exp(ln_a + _fac * uu)\n\n    uniformlog = UniformLogRV()\n\n    class UniformLog(pm.Continuous):\n        rv_op = uniformlog\n\n        @classmethod\n        def dist(cls, a, b, **kwargs):\n            a = pt.as_tensor_variable(a)\n            b = pt.as_tensor_variable(b)\n            return super().dist([a, b], **kwargs)\n\n        def support_point(rv, size, a, b):\n            a, b = pt.broadcast_arrays(a, b)\n            return 0.5 * (a + b)\n\n        def logp(value, a, b):"),
+    ]),
+    "get_orbit-reorder": (["C04", "C17"], [
+        ("thejoker/samples.py",
+         "        P = self[\"P\"]\n        e = self[\"e\"]\n        K = self[\"K\"]\n        omega = self[\"omega\"]\n        M0 = self[\"M0\"]\n",
+         "        M0 = self[\"M0\"]\n        omega = self[\"omega\"]\n        K = self[\"K\"]\n        e = self[\"e\"]\n        P = self[\"P\"]\n"),
+        ("thejoker/samples.py",
+         "        orbit.elements._P = P\n        orbit.elements._e = e * u.dimensionless_unscaled\n        orbit.elements._a = a\n",
+         "        orbit.elements._a = a\n        orbit.elements._e = e * u.dimensionless_unscaled\n        orbit.elements._P = P\n"),
+    ]),
+    "setup_mcmc-temporaries": (["C11"], [
+        ("thejoker/thejoker.py",
+         "        x = data._t_bmjd - data._t_ref_bmjd\n",
+         "        t_ref_number = data._t_ref_bmjd\n        x = data._t_bmjd - t_ref_number\n"),
+    ]),
+    "copy-getitem-temporaries": (["C15"], [
+        ("thejoker/data.py",
+         "        return self.__class__(\n            t=self.t.copy(),\n            rv=self.rv.copy(),\n            rv_err=self.rv_err.copy(),\n            t_ref=self.t_ref if self.t_ref is not None else False,\n        )\n",
+         "        keep_ref = self.t_ref if self.t_ref is not None else False\n        times = self.t.copy()\n        return self.__class__(\n            rv_err=self.rv_err.copy(),\n            rv=self.rv.copy(),\n            t=times,\n            t_ref=keep_ref,\n        )\n"),
+    ]),
+    "run_worker-noop": (["C16", "C10", "C05"], [
+        ("thejoker/multiproc_helpers.py",
+         "        sg = rng.bit_generator._seed_seq.spawn(len(tasks))\n        for i in range(len(tasks)):\n            tasks[i] = tuple(tasks[i]) + (Generator(PCG64(sg[i])),)\n",
+         "        n_streams = len(tasks)\n        sg = rng.bit_generator._seed_seq.spawn(n_streams)\n        for i in range(0, n_streams):\n            child = Generator(PCG64(sg[i]))\n            tasks[i] = tuple(tasks[i]) + (child,)\n"),
+    ]),
     "dtype_compare-hoist": (["C12"], [
         ("thejoker/samples_helpers.py",
          "        for k in set(list(d1.keys()) + list(d2.keys())):\n",
